@@ -153,6 +153,18 @@ def configs(tier):
             if "locals" not in sub:  # a name that is not an identifier cannot be a local variable
                 out.append(("bq-argument", "my name", False, sub, env))
                 out.append(("arg-dotted", "zq.attr", False, sub, env))
+    for sub in subsets:
+        # names one letter-case away from Python's literals are ordinary names
+        for nm in ("none", "TRUE", "false"):
+            out.append(("argument", nm, False, sub, 0))
+            out.append(("kwvalue", nm, False, sub, 1))
+        out.append(("callee", "none", False, sub, 0))
+        if "locals" not in sub:
+            # names a Unicode normalisation would rewrite (MICRO SIGN, superscript two) are looked up as written;
+            # Python itself normalises identifiers in source code, so they cannot be local variables here
+            out.append(("argument", "\u00b5g", False, sub, 0))
+            out.append(("kwvalue", "x\u00b2", False, sub, 0))
+            out.append(("bq-argument", "\u212b ngstrom", False, sub, 1))
     return out
 
 
@@ -330,10 +342,85 @@ def judge_newdata_precedence(m):
                     f"(training time: {[type(a[0][0]).__name__ for a in trained]})", case=case, key="newdata:data-frame-not-first")
 
 
+NESTED_SRC = """
+def factory():
+    bonus = 1.0
+    def builder():
+        _keep = bonus  # a closure: the code object of `builder` is nested and has a free variable
+        return _dm(_formula, _data, extra_namespace=_ns)
+    return builder
+
+def driver(build):
+    zq = 999.0          # a local of the DYNAMIC caller of `builder`: never in scope for the formula
+    secret = 998.0
+    return build()
+
+def middle(build):
+    zq = 997.0
+    return driver(build)
+"""
+
+
+def judge_nested_caller(m):
+    """design_matrices called from a nested function (closure) that is itself run by an unrelated driver:
+    the caller's scope is the frame of the nested function (locals, then ITS globals); the locals of the
+    functions further up the call chain are not part of it."""
+    import formulae
+
+    rng = np.random.default_rng(7)
+    n = 6
+    REC_N[0] = n
+    for raw in (False, True):
+        for bits in itertools.product([0, 1], repeat=3):
+            subset = tuple(s for s, b in zip(("data", "globals", "extra"), bits) if b)
+            for name, formula in (("zq", "y ~ rec(zq)"), ("zq", "y ~ rec(x, w=zq * 2)"), ("secret", "y ~ rec(secret)")):
+                data = pd.DataFrame({"y": rng.normal(size=n), "x": rng.normal(size=n)})
+                if "data" in subset:
+                    data[name] = 10.0
+                rec = Recorder()
+                ns = {"rec": rec}
+                if "extra" in subset:
+                    ns[name] = 50.0
+                g = {"__name__": "fmon_gen_nested", "np": np, "pd": pd, "_formula": formula, "_data": data, "_ns": ns,
+                     "_dm": attach.ORIG["design_matrices"] if raw else formulae.design_matrices}
+                if "globals" in subset:
+                    g[name] = 400.0
+                exec(NESTED_SRC, g)
+                case = {"role": "nested-caller", "name": name, "formula": formula, "scopes": list(subset), "raw": raw}
+                m.current_case = case
+                m.case(case, canon=["nested", name, formula, subset, raw], nontrivial=True)
+                want = {"data": 10.0, "globals": 400.0, "extra": 50.0}[subset[0]] if subset else None
+                try:
+                    g["middle"](g["factory"]())
+                    a, k = rec.args[0]
+                    obj = k["w"] if k else a[0]
+                    got = float(obj.iloc[0]) if isinstance(obj, pd.Series) else float(obj)
+                    if "w=" in formula:
+                        got = got / 2
+                    exc = None
+                except Exception as e:
+                    got, exc = None, e
+                if want is None:
+                    m.ev("undefined-name-raises")
+                    if exc is None:
+                        m.violation("undefined-name-raises", f"{name!r} is defined in no scope of the nested caller but resolved to {got} "
+                                    "(999/998/997 are locals of functions further up the call chain)", case=case, key="nested:undefined-resolves")
+                    continue
+                m.ev("first-defining-scope-wins")
+                if exc is not None:
+                    m.violation("first-defining-scope-wins", f"nested caller, {name!r} defined in {list(subset)}: {type(exc).__name__}: {exc}",
+                                case=case, key="nested:raises")
+                elif got != want:
+                    m.violation("first-defining-scope-wins", f"nested caller, {name!r} defined in {list(subset)}: value {got} was used, {want} expected "
+                                "(999/998/997 are locals of functions further up the call chain)", case=case, key="nested:order")
+
+
 def run_shard(i, n, tier, seed, m):
     if i == 0:
         core.guarded(judge_env_object)(m)
         core.guarded(judge_newdata_precedence)(m)
+    if i == 1 % n:
+        core.guarded(judge_nested_caller)(m)
     for k, cfg in enumerate(configs(tier)):
         if k % n != i:
             continue
